@@ -4229,6 +4229,10 @@ class Wallet(object):
                 output_arr.append((o['address'], int(o['value'])))
             rt = self.transaction_create(output_arr, input_arr, fee=t['fee'], network=t['network'],
                                          random_output_order=False)
+            # Keep the sequence numbers of the imported transaction, they are part of what has been signed
+            for rt_input, inp_dict in zip(rt.inputs, t['inputs']):
+                if inp_dict.get('sequence') is not None:
+                    rt_input.sequence = inp_dict['sequence']
             rt.block_height = t['block_height']
             rt.confirmations = t['confirmations']
             rt.witness_type = t['witness_type']
